@@ -55,6 +55,7 @@ def obligations(tier):
         Ob('O12.4-b_add-two-kf', 'sx', S + 'h_b_add_two_kf', slices=[{'src': 'abcdefgh'}], timeout=t, finding='F36',
            descr='region F36: a later result inside or across an earlier one is kept'),
         Ob('O12.4-witness', 'fn', S + 'api_witness_f36', timeout=t, finding='F36', descr='API witness of F36'),
+        Ob('O12.6-witness-zh-unit', 'fn', 'harness.witness:api_witness', slices=[{'w': 'F41'}], timeout=t, finding='F41', descr='API witness of F41 (zh-cn: suffix unit swallows the next numeral)'),
         Ob('O12.6-witness-zh', 'fn', 'harness.witness:api_witness', slices=[{'w': 'F37-overlap'}], timeout=t, finding='F37', descr='API witness of F37 (zh-cn modifier widening: overlapping entities)'),
         Ob('O12.5-select-candidates', 'sx', S + 'h_select_candidates', timeout=max(t, 300),
            descr='NumberWithUnitExtractor._select_candidates: prefix/suffix currency candidates that share a unit are resolved to pairwise disjoint entities',
@@ -67,7 +68,7 @@ def obligations(tier):
            descr='audit: the negative-number-term pattern of every culture extractor is anchored at the end of the prefix (premise of the sweep stub)'),
     ]
     cs = [{'kind': k, 'pad': a} for k in ('datetime', 'currency') for a in range(10)] + [{'kind': 'dimension'}, {'kind': 'percentage'}]
-    cs += [{'kind': k, 'culture': 'zh-cn'} for k in ('currency', 'dimension', 'datetime')]
+    cs += [{'kind': k, 'culture': 'zh-cn'} for k in ('currency', 'dimension', 'age', 'temperature', 'datetime')]
     if tier == 'thorough':
         cs += [{'kind': k, 'culture': c} for c in ('es-es', 'fr-fr', 'pt-br', 'de-de') for k in ('currency', 'datetime')]
     obs.append(Ob('O12.6-composed', 'sx', 'harness.compose:h_compose', slices=cs, timeout=max(t, 300),
